@@ -13,6 +13,7 @@ use walkdir::WalkDir;
 
 use crate::{
     backend::{BytesList, FileType, ReadBackend, WriteBackend},
+    crypto::hasher::hash,
     error::{ErrorKind, RusticError, RusticResult},
     id::Id,
     repofile::configfile::RepositoryId,
@@ -96,7 +97,11 @@ impl ReadBackend for CachedBackend {
     fn read_full(&self, tpe: FileType, id: &Id) -> RusticResult<Bytes> {
         if tpe.is_cacheable() {
             match self.cache.read_full(tpe, id) {
-                Ok(Some(data)) => return Ok(data),
+                // the id of cacheable files is the hash of their content: don't trust truncated or foreign cache entries
+                Ok(Some(data)) if hash(&data) == *id => return Ok(data),
+                Ok(Some(_)) => {
+                    warn!("Cache entry {tpe:?},{id} does not match its id, reading from backend.")
+                }
                 Ok(None) => {}
                 Err(err) => warn!(
                     "Error in cache backend reading {tpe:?},{id}: {}",
